@@ -235,7 +235,86 @@ var malformedInts = []string{"0x10", "0X1F", "+0x10", "-0x1", "0b11", "0B1", "0o
 	"1,0", "١", "1.0.0", "1e1.0", "NaN", "Inf", "-.5", "3.0000001", "12e-3", "100e-3"}
 var oddButIntegral = []string{".0", "-.0", "5.", "+5.", "0e99", "-0", "+0", "0.000", "1000e-3", "25e-1e0"}
 
+// several integer literals in one dataset: each is judged on its own (range and encoding do not depend on what else the
+// dataset holds, nor on the order in which the literals are visited)
+func (g *c04gen) datasetSequence(hs HSpec) {
+	r := g.r
+	ds := ld.NewRDFDataset()
+	k := 2 + r.Intn(5)
+	var qs []*ld.Quad
+	allOK := true
+	var wants []*big.Int
+	for i := 0; i < k; i++ {
+		dt := r.Pick(intTypes)
+		lo, hi := stmtRange(dt, hs.Prime)
+		var v *big.Int
+		switch r.Intn(8) {
+		case 0:
+			v = new(big.Int).Set(lo)
+		case 1, 2:
+			v = new(big.Int).Set(hi)
+		case 3:
+			v = new(big.Int).Sub(hi, big.NewInt(int64(r.Intn(3))))
+		case 4:
+			v = new(big.Int).Add(lo, big.NewInt(int64(r.Intn(3))))
+		case 5:
+			if r.Chance(40) {
+				v = new(big.Int).Add(hi, big.NewInt(1)) // out of range
+			} else {
+				v = new(big.Int).Sub(lo, big.NewInt(1))
+			}
+		default:
+			v = new(big.Int).Add(lo, r.BigBelow(new(big.Int).Add(new(big.Int).Sub(hi, lo), big.NewInt(1))))
+		}
+		if v.Cmp(lo) < 0 || v.Cmp(hi) > 0 {
+			allOK = false
+		}
+		wants = append(wants, stmtEncInt(v, hs.Prime))
+		qs = append(qs, &ld.Quad{Subject: ld.NewIRI("urn:a"), Predicate: ld.NewIRI(fmt.Sprintf("urn:p%d", i)), Object: ld.NewLiteral(v.String(), xsdNS+dt, "")})
+	}
+	ds.Graphs["@default"] = qs
+	dsJ, canon := datasetJ(ds)
+	c := Case{Op: "rdf.entries", In: J{"h": hs.JSON, "ds": dsJ, "canon": canon}, Tags: []string{"dataset-sequence", "h:" + hs.Name, fmt.Sprintf("all-in-range:%v", allOK)}, NT: true}
+	ents, err := guard(5*time.Second, func() ([]merklize.RDFEntry, error) {
+		es, e := merklize.EntriesFromRDFWithHasher(ds, hs.H)
+		if e == nil && es == nil {
+			es = []merklize.RDFEntry{}
+		}
+		return es, e
+	})
+	var why []string
+	if err != nil {
+		c.Impl = errJ(err)
+		if allOK {
+			why = append(why, "every literal of the dataset is inside its type's range, but the dataset is rejected: "+err.Error())
+		}
+	} else {
+		ej := make([]any, len(ents))
+		for i, e := range ents {
+			ej[i] = entryJ(e)
+		}
+		c.Impl = okJ(ej)
+		if !allOK {
+			why = append(why, "a literal outside its type's range was accepted")
+		} else if len(ents) != len(wants) {
+			why = append(why, fmt.Sprintf("%d literals, %d entries", len(wants), len(ents)))
+		} else {
+			for i, e := range ents {
+				vh, verr := e.ValueMtEntry()
+				if verr != nil || vh.Cmp(wants[i]) != 0 {
+					why = append(why, fmt.Sprintf("literal %d encodes as %v (%v), expected %v", i, vh, verr, wants[i]))
+				}
+			}
+		}
+	}
+	c.Prop = propOf(why)
+	g.out.Emit(c)
+}
+
 func (g *c04gen) run(tier string, n int) {
+	for i := 0; i < n/3+20; i++ {
+		g.datasetSequence([]HSpec{hPoseidon(), hSmall(251), hSmall(65537), hSalted(), hSmall(2305843009213693951)}[g.r.Intn(5)])
+	}
 	smallPrimes := []int64{3, 5, 7, 251}
 	if g.shard != 0 {
 		smallPrimes = nil // the enumeration is deterministic: one shard runs it
